@@ -466,10 +466,16 @@ func init() {
 		if tier == "thorough" {
 			ts = append(ts, hList(call("merge", hField("a")), call("merge", hField("a"), hField("b"))),
 				tOr(tAnd(hField("a"), call("not_null", hField("a"), hField("b"), hCur())), call("not_null", hField("b"))))
-			ts = append(ts, familyFunc("quick")...)
-			ts = append(ts, familyProj("quick")[:80]...)
 		}
 		return dedupe(ts)
+	}
+	// thorough only: more templates for the compiled-expression frame check
+	// (whole three-search histories over them did not finish in 60 minutes)
+	compiledOnly := func(tier string) []tmpl {
+		if tier != "thorough" {
+			return nil
+		}
+		return dedupe(append(append([]tmpl{}, familyFunc("quick")...), familyProj("quick")[:80]...))
 	}
 	specs["C13"] = &CheckSpec{Prop: "C13", Level: "model_checking", Frame: true,
 		Jobs: func(tier string) []*Job {
@@ -481,6 +487,15 @@ func init() {
 				js = append(js, j)
 				j2 := jobOf("VerifCompiled", []string{"C13"}, "expr", t.text, "depth", "2")
 				j2.W, j2.S, j2.Keys = 3, 1, []string{"a", "b"}
+				j2.Unwind = 64 + 4*len(t.text)
+				js = append(js, j2)
+			}
+			for _, t := range compiledOnly(tier) {
+				j2 := jobOf("VerifCompiled", []string{"C13"}, "expr", t.text, "depth", "2")
+				j2.W, j2.S, j2.Keys = 3, 1, []string{"a", "b"}
+				if strings.ContainsAny(t.text, "[*") {
+					j2.W = 2 // flattening / projecting arrays of 3 arrays of 3 does not finish
+				}
 				j2.Unwind = 64 + 4*len(t.text)
 				js = append(js, j2)
 			}
@@ -503,7 +518,8 @@ func init() {
 			for fi, first := range firsts {
 				lim := nmax
 				// one more symbolic byte after the firsts that leave lexer state behind (a raw string needs 3 bytes)
-				if fi == 0 || fi == 9 || fi == 10 {
+				// (quick tier only: four arbitrary bytes take more than ten minutes per first)
+				if (fi == 0 || fi == 9 || fi == 10) && tier != "thorough" {
 					lim = nmax + 1
 				}
 				for n := 0; n <= lim; n++ {
@@ -515,7 +531,7 @@ func init() {
 			return js
 		},
 		Bounds: func(tier string) map[string]interface{} {
-			return map[string]interface{}{"history_templates": len(histT(tier)), "documents": "two independent lazy documents, depth 2, arrays <= 2", "parser_reuse": "first expression from 9 fixed texts (incl. failing ones), then arbitrary index/expression/tokens fields, second expression N <= 2/3 arbitrary bytes"}
+			return map[string]interface{}{"history_templates": len(histT(tier)), "compiled_frame_only_templates": len(compiledOnly(tier)), "documents": "two independent lazy documents, depth 2, arrays <= 2", "parser_reuse": "first expression from 13 fixed texts (incl. failing ones), then arbitrary index/expression/tokens fields, second expression N <= 2 arbitrary bytes (3 after the firsts that leave lexer state behind) in the quick tier, N <= 3 for all in the thorough tier"}
 		},
 		Assumptions: commonAssumptions,
 		Outside:     []string{"histories longer than three searches (covered by the frame obligation: a search that writes nothing pre-existing cannot influence a later one)", "second expressions longer than N bytes"},
